@@ -549,6 +549,7 @@ outerNew:
 				col += skip
 				continue
 			}
+			vx.invalidateCovered(row, col)
 			vx.screenLast.buf[row][col] = next
 			if reposition {
 				if cursor.Hyperlink != "" {
@@ -750,6 +751,7 @@ outerNew:
 					break
 				}
 				// null out any cells we end up skipping
+				vx.invalidateCovered(row, col+i)
 				vx.screenLast.buf[row][col+i] = Cell{}
 			}
 			col += skip
@@ -1558,6 +1560,20 @@ func (vx *Vaxis) SetAppID(s string) {
 // Bell sends a BEL control signal to the terminal
 func (vx *Vaxis) Bell() {
 	_, _ = vx.console.Write([]byte{0x07})
+}
+
+// invalidateCovered marks the cells hidden under the (wide) cell last rendered
+// at col, row as needing a repaint. It is called when that cell is about to be
+// replaced: the terminal no longer shows anything defined in those columns,
+// even if the application never wrote them
+func (vx *Vaxis) invalidateCovered(row int, col int) {
+	skip := vx.advance(vx.screenLast.buf[row][col])
+	for i := 1; i < skip+1; i += 1 {
+		if col+i >= len(vx.screenLast.buf[row]) {
+			break
+		}
+		vx.screenLast.buf[row][col+i].sixel = true
+	}
 }
 
 // advance returns the extra amount to advance the column by when rendering
